@@ -383,6 +383,11 @@ func (x *Exec) applyContract(fr *Frame, st *State, ct *Contract, key string, sig
 			ev.bindT[n] = ptypes[i]
 		}
 	}
+	for n, v := range x.spawnBinds {
+		if _, ok := ev.bind[n]; !ok {
+			ev.bind[n] = v
+		}
+	}
 	for _, cl := range ct.Requires {
 		t := ev.boolExpr(cl.Expr)
 		x.oblige(st, "call-pre", fmt.Sprintf("%s:%s", shortKey(key), cl.Label), t, cl.Tags, pos)
@@ -769,6 +774,8 @@ func (x *Exec) appendCPS(fr *Frame, st *State, args []Value, c *ssa.CallCommon, 
 	}
 	et := s.Elem
 	n := x.name(st, "applen", Add(s.Len, t.Len))
+	// a slice is never longer than the largest int (running out of memory is not modelled)
+	st.assume(Le(n, IntLit(9223372036854775807)))
 	fits := Le(n, s.Cap)
 	tlen, tconst := isIntLit(t.Len)
 	st2 := st.clone()
